@@ -350,6 +350,17 @@ def cmd_check(args):
             exit_code = 1
         else:
             nondet.append(dict(r, result="harness_nondet", detail="fresh-process replay rc=%s: %s" % (rc, r.get("detail"))))
+    # reach: a probe of this check that has to fire in every full-size run but is stuck at zero means that part of the
+    # check is dead code (it happened: C17's registry classes were skipped for every class) -- a harness problem, not a pass
+    if not args.runs:
+        fired = {}
+        for r in all_recs:
+            for k, v in (r.get("probes") or {}).items():
+                fired[k] = fired.get(k, 0) + v
+        dead = [k for k in c.get("required_probes", []) if not fired.get(k)]
+        if dead and exit_code == 0:
+            exit_code = 2
+            lines.append("HARNESS-PROBLEM property=%s probes stuck at zero (part of the check did not run): %s" % (pid, ", ".join(dead)))
     if nondet and exit_code == 0:
         exit_code = 2
         for r in nondet[:5]:
